@@ -6,7 +6,8 @@
    schema are exactly as before" is Leibniz equality of `doc` (tables, Column objects and engine.schema). *)
 From stdpp Require Import gmap.
 Require Import Grist.Model.Rollback Grist.Proofs.Rollback_proofs Grist.Proofs.Rollback_run Grist.Proofs.Rollback_inside
-  Grist.Proofs.Rollback_flush Grist.Proofs.Rollback_calc Grist.Proofs.Rollback_witness.
+  Grist.Proofs.Rollback_flush Grist.Proofs.Rollback_calc Grist.Proofs.Rollback_calc_multi Grist.Proofs.Rollback_calc_rows Grist.Proofs.Rollback_schema Grist.Proofs.Rollback_usable
+  Grist.Proofs.Rollback_witness.
 Open Scope Z_scope.
 
 (* what the except branch of apply_user_actions computes after a crash before micro-step k of the bundle es *)
@@ -85,6 +86,39 @@ Theorem C04_rollback_partial : forall ord (s : doc) (es : list event) (k : nat) 
   exists s_r, reverted ord s es k st = Some s_r /\ s_r = s /\ d_schema s_r = d_schema s.
 Proof. intros. exists s. split; [eapply rollback_flush_partial; eauto|split; reflexivity]. Qed.
 
+(* Crash points INSIDE schema doc actions, with apply_doc_action's saved_schema restore: the snapshot repairs
+   (a) every schema action (AddColumn, RemoveColumn, RenameColumn, ModifyColumn, AddTable, RemoveTable, RenameTable) when
+       the failure strikes after the clone and the in-place mutation of engine.schema but before rebuild_usercode, and
+   (b) AddColumn and AddTable also after rebuild_usercode, before their undo append (snapshot_point).
+   It does NOT repair RemoveColumn / RenameColumn / ModifyColumn / RenameTable once rebuild_usercode has run (the old
+   Column / Table objects are destroyed: C04_refuted_schema_restore, C04_refuted_rename_after_rebuild), nor any schema
+   action after its undo append (C04_refuted_restore_conflict), nor RemoveTable after its data undo. *)
+Theorem C04_rollback_partial_snapshot : forall ord (s : doc) (es : list event) (k : nat) st cur done,
+  wf s -> Forall no_replace_ev es ->
+  run_until_crash ord (init_state s []) es k = Crashed st cur done ->
+  ms_pending st = [] -> covered_point cur done \/ snapshot_point cur done ->
+  reverted ord s es k st = Some s.
+Proof. exact rollback_flush_snapshot. Qed.
+
+Theorem C04_refuted_rename_after_rebuild : refuted w_ord w_doc w_rename_column 3 /\ refuted w_ord w_doc w_rename_table 3.
+Proof.
+  destruct w_rename_trace as [H1 H2].
+  split; (split; [exact w_doc_wf|apply leaves_trace_flush_spec]); assumption.
+Qed.
+
+Example C04_snapshot_nonvacuous :
+  snapshot_point (Some (EDoc (RenameColumn T A N))) [MSave; MSchema ∅] /\
+  snapshot_point (Some (EDoc (AddColumn T N ci_int))) [MSave; MSchema ∅; MRebuild] /\
+  forallb (fun es => negb (leaves_trace_flush w_ord w_doc es 2))
+          [w_remove_column; w_rename_column; w_rename_table; w_to_formula] = true /\
+  leaves_trace_flush w_ord w_doc [EDoc (AddColumn T N ci_int)] 3 = false /\
+  leaves_trace_flush w_ord w_doc [EDoc (AddTable 5 [(A, ci_int)])] 3 = false.
+Proof.
+  split; [left; eexists; split; [reflexivity|repeat constructor; eexists; reflexivity]|].
+  split; [right; eexists _, _; split; [reflexivity|]; split; [exists T, N, ci_int; left; reflexivity|reflexivity]|].
+  exact w_snapshot_no_trace.
+Qed.
+
 (* the same for the bare _undo_to_checkpoint with any undo prefix u0 (nested checkpoints, get_formula_value) *)
 Theorem C04_rollback_partial_bare : forall ord (s : doc) (u0 : list action) (es : list event) (k : nat) st cur done,
   wf s -> Forall no_replace_ev es ->
@@ -114,6 +148,94 @@ Example C04_pending_calc_nonvacuous :
 Proof.
   split; [repeat constructor; simpl; intros [_ H]; repeat (apply elem_of_cons in H as [H|H]; [discriminate|]); inversion H|].
   split; [vm_compute; eexists; reflexivity|]. vm_compute. discriminate.
+Qed.
+
+(* ... and for SEVERAL recomputed columns CC in one bundle (any tables), again with record updates that write none of
+   them, in any order and number, at every event boundary. *)
+Theorem C04_pending_calcs_rolled_back : forall ord (s : doc) (CC : list (name * name)) (es : list event) (k : nat) st cur,
+  wf s -> Forall (upd_or_calc_in CC) es ->
+  run_until_crash ord (init_state s []) es k = Crashed st cur [] ->
+  reverted ord s es k st = Some s.
+Proof. exact pending_calcs_rolled_back. Qed.
+
+Example C04_pending_calcs_nonvacuous :
+  let es := [EDoc (UpdateRecord T 1 [(A, 10)]); ECalc T B [(1, 20)]; ECalc T C [(2, 9)]; ECalc T B [(2, 40); (1, 21)]] in
+  Forall (upd_or_calc_in [(T, B); (T, C)]) es /\
+  match run_until_crash w_ord (init_state w_doc []) es 9 with
+  | Crashed st None [] => length (ms_pending st) = 4%nat /\ bool_decide (reverted w_ord w_doc es 9 st = Some w_doc) = true
+  | _ => False end.
+Proof.
+  split.
+  - repeat constructor; simpl; set_solver.
+  - vm_compute. split; reflexivity.
+Qed.
+
+(* ... and in bundles that also ADD records (BulkAddRecord writing none of the recomputed columns): the recomputed
+   cells of the NEW rows are not in the flushed undo (new-row filter of _changes_to_actions: `before` mark False);
+   they disappear with the BulkRemoveRecord that undoes the add.  Any number and order of updates, adds and
+   recomputations of the columns CC, at every event boundary. *)
+Theorem C04_pending_calcs_with_adds_rolled_back :
+  forall ord (s : doc) (CC : list (name * name)) (es : list event) (k : nat) st cur,
+  wf s -> Forall (upd_add_or_calc_in CC) es ->
+  run_until_crash ord (init_state s []) es k = Crashed st cur [] ->
+  reverted ord s es k st = Some s.
+Proof. intros ord s CC es k st cur Hw. exact (pending_calcs_with_adds_rolled_back ord s Hw CC es k st cur). Qed.
+
+Example C04_pending_calcs_with_adds_nonvacuous :
+  let es := [EDoc (AddRecord T 3 [(A, 5)]); ECalc T B [(3, 10); (1, 20)]; EDoc (UpdateRecord T 3 [(A, 6)]);
+             ECalc T C [(3, 7); (2, 9)]; ECalc T B [(3, 12)]] in
+  Forall (upd_add_or_calc_in [(T, B); (T, C)]) es /\
+  match run_until_crash w_ord (init_state w_doc []) es 14 with
+  | Crashed st None [] =>
+      length (ms_pending st) = 5%nat /\ length (ms_undo st) = 2%nat /\
+      bool_decide (reverted w_ord w_doc es 14 st = Some w_doc) = true /\
+      bool_decide (rollback w_ord 0 st = Some w_doc) = false
+  | _ => False end.
+Proof.
+  split.
+  - repeat constructor; simpl; set_solver.
+  - vm_compute. repeat split; reflexivity.
+Qed.
+
+(* "The engine stays usable: a following Calculate emits no changes."  For any formula semantics `eval` that is a
+   function of the document alone (no clock / randomness / evaluation-order or cache dependence), if before the
+   bundle every formula cell held the value of its formula (`consistent`: what C05 establishes; in particular the
+   document was clean), then after a rollback that restored the document -- i.e. at every crash point covered by the
+   theorems above -- recomputing ANY list of dirty formula cells, one after the other, changes nothing and reports
+   no change.  (The dirty set itself and the dependency graph are not modelled: the statement holds for every set.) *)
+Theorem C04_usable_after : forall (eval : doc -> name -> name -> rowid -> val) ord (s : doc) (es : list event) k st s_r dirty,
+  wf s -> consistent eval s ->
+  reverted ord s es k st = Some s_r -> s_r = s ->
+  Forall (formula_cell s_r) dirty ->
+  recalc eval s_r dirty = s_r /\ calc_emits eval s_r dirty = [].
+Proof. intros eval ord s es k st s_r dirty Hw Hc _ -> Hd. apply usable_after; assumption. Qed.
+
+(* ... in particular at every crash point covered by C04_rollback_partial_snapshot *)
+Theorem C04_usable_after_partial : forall eval ord (s : doc) (es : list event) (k : nat) st cur done,
+  wf s -> consistent eval s -> Forall no_replace_ev es ->
+  run_until_crash ord (init_state s []) es k = Crashed st cur done ->
+  ms_pending st = [] -> covered_point cur done \/ snapshot_point cur done ->
+  exists s_r, reverted ord s es k st = Some s_r /\
+    forall dirty, Forall (formula_cell s_r) dirty -> recalc eval s_r dirty = s_r /\ calc_emits eval s_r dirty = [].
+Proof.
+  intros eval ord s es k st cur done Hw Hc Hnr Hrun Hp Hcov. exists s.
+  split; [eapply rollback_flush_snapshot; eauto|]. intros d Hd. apply usable_after; assumption.
+Qed.
+
+Example C04_usable_nonvacuous :
+  let eval := fun (d : doc) (t c : name) (r : rowid) =>
+    from_option (fun tb => from_option (fun col => 2 * cget col r) 0 (t_cols tb !! A)) 0 (d_tables d !! t) in
+  consistent eval w_doc /\ formula_cell w_doc (T, B, 1).
+Proof.
+  split.
+  - intros [[t c] r] tb col Ht Hc Hf Hr. simpl in *. unfold w_doc in Ht. simpl in Ht.
+    apply lookup_insert_Some in Ht as [[<- <-]|[_ Ht]]; [|rewrite lookup_empty in Ht; discriminate]. simpl in *.
+    apply lookup_insert_Some in Hc as [[<- <-]|[_ Hc]]; [discriminate Hf|].
+    apply lookup_insert_Some in Hc as [[<- <-]|[_ Hc]].
+    + apply elem_of_union in Hr as [Hr|Hr]; apply elem_of_singleton in Hr; subst r; vm_compute; reflexivity.
+    + apply lookup_insert_Some in Hc as [[<- <-]|[_ Hc]]; [discriminate Hf|rewrite lookup_empty in Hc; discriminate].
+  - eexists _, _. split; [apply lookup_insert|]. split; [simpl; rewrite lookup_insert_ne by discriminate; apply lookup_insert|].
+    split; [reflexivity|]. simpl. set_solver.
 Qed.
 
 (* validation failure = crash before the first micro-step: identity, for every document and bundle *)
